@@ -129,7 +129,14 @@ def main():
         'known_findings_reproduced': sorted(known_hit),
         'no_longer_checks': [{'kind': b['kind'], 'what': str(b['what'])[:400]} for b in broken],
     }
-    cov.update(res.get('extra', {}))
+    # per-property extras; a key the evidence schema reserves for a count keeps its meaning
+    for k, v in res.get('extra', {}).items():
+        if k in ('states', 'transitions', 'traces_validated_against_impl', 'obligations', 'discharged',
+                 'evaluations', 'distinct_nontrivial') and not isinstance(v, int):
+            k = k + '_detail'
+        if k in ('evaluations', 'distinct_nontrivial', 'rule', 'samples', 'obligations', 'discharged') and k in cov:
+            k = 'extra_' + k
+        cov[k] = v
     common.write_evidence(prop, a.tier, seed, cov, getattr(mod, 'ASSUMPTIONS', []), time.time() - t0, nviol)
     if rc == 0:
         print('OK property=%s tier=%s theorems=%d cases=%d wall=%.1fs'
